@@ -1,7 +1,7 @@
 // C19 driver: drives STIR's array filters and Fourier transforms and records inputs and outputs.
 // No property formula, no expected value, no comparison here: TLC (Trace_Conv.tla, Trace_DFT4.tla) decides.
 //   c19_fourier conv <out.ndjson> <n-random> <tier>    exact integer/dyadic instances of the convolution filters
-//   c19_fourier dft  <out.ndjson> <max-total-size> <repeats>   fourier / inverse_fourier / real-data transforms
+//   c19_fourier dft  <out.ndjson> <max-total-size> <repeats> <max-table-length>   fourier / inverse_fourier / real-data transforms
 //   c19_fourier filt <out.ndjson> <n>                  separable Gaussian / Metz filters on piecewise constant data
 // Number encodings: kernel and data values are integers times 2^-scale (exact in single precision);
 // results are logged as round(v * 2^k) together with the largest rounding residual in 2^-(k+20) units
@@ -29,6 +29,7 @@
 #include <complex>
 #include <sys/types.h>
 #include <sys/wait.h>
+#include <csignal>
 #include <algorithm>
 using namespace stir;
 
@@ -80,6 +81,15 @@ static const char* BCN[3] = { "zero", "constant", "periodic" };
 static BoundaryConditions::BC BCV[3] = { BoundaryConditions::zero, BoundaryConditions::constant, BoundaryConditions::periodic };
 
 static long ev_id = 0;
+
+// a fatal signal inside the code under test: truncated but valid trace + Abort line (which no specification accepts)
+static void on_fatal_signal(int) {
+  if (vh::Trace::current()) { vh::Trace::current()->emit(vh::Json("Abort")); vh::Trace::current()->flush(); }
+  _exit(0);
+}
+static void install_signal_handlers(bool on) {
+  for (int sig : { SIGSEGV, SIGBUS, SIGFPE, SIGILL, SIGABRT }) std::signal(sig, on ? on_fatal_signal : SIG_DFL);
+}
 
 // ------------------------------------------------------------------ mode conv
 static VectorWithOffset<float> kernel1d(int lo, const std::vector<long long>& v, int scale) {
@@ -137,7 +147,7 @@ template <int D, class Filter> static void one_cn(vh::Trace& tr, const A3& k, in
   if (!isolated && D == 3 && k.size() > 0 && k.lo[0] == 0 && k.n[0] == 1 && !(k.lo[1] <= 0 && 0 < k.lo[1] + k.n[1])) {
     tr.flush();
     const pid_t pid = fork();
-    if (pid == 0) { one_cn<D, Filter>(tr, k, sk, d, sd, olo, on, inplace, true); tr.flush(); _exit(0); }
+    if (pid == 0) { install_signal_handlers(false); one_cn<D, Filter>(tr, k, sk, d, sd, olo, on, inplace, true); tr.flush(); _exit(0); }
     int status = 0;
     waitpid(pid, &status, 0);
     if (!(WIFEXITED(status) && WEXITSTATUS(status) == 0)) {
@@ -410,6 +420,38 @@ template <int D> static void one_rc(vh::Trace& tr, const int* n, int sign, const
   }
   tr.emit(j);
 }
+// twiddle table and transform values of a 1-D transform: transforms of unit impulses and of random integer data
+static void one_tw(vh::Trace& tr, int n, int sign, vh::Rng& rng) {
+  const int nn[3] = { 1, 1, n };
+  const int wk = 15;
+  auto impulse = [&](int m) { Array<1, cf> c(0, n - 1); c[m] = cf(1.F, 0.F); fourier(c, sign); return c; };
+  vh::Json j("TW");
+  j.num("id", ++ev_id).num("dim", 1).arr("n", v3(nn)).num("sign", sign).num("wk", wk);
+  bool err = vh::threw([&] {
+    Array<1, cf> w = impulse(n > 1 ? 1 : 0);
+    clog<1>(j, "wre", "wim", w, nn, wk);
+    std::vector<int> pm;
+    if (n > 1) { pm = { 0, 2 % n, 3 % n, n / 2, n - 1, rng.range(0, n - 1), rng.range(0, n - 1) }; }
+    std::string pre = "[", pim = "[";
+    for (size_t i = 0; i < pm.size(); ++i) {
+      Array<1, cf> e = impulse(pm[i]);
+      vh::Json t; clog<1>(t, "re", "im", e, nn, wk);
+      const std::string d = t.done();     // {"re":[...],"im":[...]}
+      const size_t a = d.find("\"re\":") + 5, b = d.find(",\"im\":"), c2 = b + 6;
+      pre += (i ? "," : "") + d.substr(a, b - a);
+      pim += (i ? "," : "") + d.substr(c2, d.size() - 1 - c2);
+    }
+    j.arr("pm", pm).raw("pre", pre + "]").raw("pim", pim + "]");
+    std::vector<long long> re = rand_vals(rng, n, 50), im = rand_vals(rng, n, 50);
+    Array<1, cf> c = to_carray<1>(nn, re, im, 0);
+    fourier(c, sign);
+    const int kX = scale_for(cmaxabs<1>(c, nn), 8);
+    j.arr("xre", re).arr("xim", im).num("kX", kX);
+    clog<1>(j, "Xre", "Xim", c, nn, kX);
+  });
+  j.boolean("err", err);
+  tr.emit(j);
+}
 template <int D> static void dft_shape(vh::Trace& tr, const int* n, vh::Rng& rng, int repeats) {
   A3 t; for (int d = 0; d < 3; ++d) t.n[d] = n[d];
   const size_t N = (size_t)t.size();
@@ -430,7 +472,10 @@ template <int D> static void dft_shape(vh::Trace& tr, const int* n, vh::Rng& rng
     if (n[2] >= 2) { one_rc<D>(tr, n, 1, re, sx); one_rc<D>(tr, n, -1, im, sx); }
   }
 }
-static void mode_dft(vh::Trace& tr, long max_total, int repeats, vh::Rng& rng) {
+static void mode_dft(vh::Trace& tr, long max_total, int repeats, vh::Rng& rng, int max_tw) {
+  for (int e = 0; (1 << e) <= max_tw; ++e)
+    for (int sign : { 1, -1 })
+      for (int rep = 0; rep < (e <= 6 ? 2 : 1); ++rep) one_tw(tr, 1 << e, sign, rng);
   // all power-of-two lengths 1..1024 per axis, 1 to 3 dimensions, total size bounded
   for (int e3 = 0; e3 <= 10; ++e3) {
     int n[3] = { 1, 1, 1 << e3 };
@@ -574,10 +619,11 @@ int main(int argc, char** argv) {
   if (!getenv("VERIF_STDERR")) { if (!freopen("/dev/null", "w", stderr)) return 3; }
   Verbosity::set(0);
   vh::install_terminate();
+  install_signal_handlers(true);
   vh::Trace tr(argv[2]);
   vh::Rng rng((uint64_t)vh::seed_from_env());
   if (mode == "conv") mode_conv(tr, argc > 3 ? atol(argv[3]) : 200, argc > 4 ? atoi(argv[4]) : 0, rng);
-  else if (mode == "dft") mode_dft(tr, argc > 3 ? atol(argv[3]) : 1024, argc > 4 ? atoi(argv[4]) : 1, rng);
+  else if (mode == "dft") mode_dft(tr, argc > 3 ? atol(argv[3]) : 1024, argc > 4 ? atoi(argv[4]) : 1, rng, argc > 5 ? atoi(argv[5]) : 256);
   else if (mode == "filt") mode_filt(tr, argc > 3 ? atol(argv[3]) : 30, rng);
   else return 2;
   return 0;
